@@ -125,6 +125,10 @@ def _check_state(ctx, obj, model, case, step):
             return False
     if obj.get_UoRT(x=0.0, T=T) != 0:
         ctx.fail(tag + '/nonzero-at-zero', 'step %d %r' % (step, obj.get_UoRT(x=0.0, T=T)))
+    for g in ('get_UoRT', 'get_HoRT', 'get_FoRT', 'get_GoRT'):
+        # documented default coverage is 0
+        if getattr(obj, g)(T=T) != 0:
+            ctx.fail('%s/nonzero-at-default-coverage:%s' % (tag, g), 'step %d %r' % (step, getattr(obj, g)(T=T)))
     for g in ('get_SoR', 'get_CvoR', 'get_CpoR'):
         if getattr(obj, g)() != 0:
             ctx.fail('%s/nonzero:%s' % (tag, g), 'step %d' % step)
